@@ -52,10 +52,11 @@ def run_case(a):
     viol = []
     st = {"runs": 0, "paths_snapshotted": 0, "foreign_planted": 0, "mutating_syscalls_classified": 0}
     try:
-        layout = rnd.choice(["inside", "beside", "equal", "deep", "dotdot", "default"])
+        layout = rnd.choice(["inside", "beside", "equal", "deep", "dotdot", "default", "dotted-fresh", "dotted-fresh"])
         srcrel = "app/src-tauri"
         outrel = {"inside": "app/src-tauri/gen", "beside": "app/generated", "equal": "app/src-tauri", "deep": "app/web/src/lib/gen/api", "dotdot": "app/src-tauri/../bindings",
-                  "default": "app/src/generated"}[layout]     # "default": what the flags' built-in defaults spell, relative to the cwd app/
+                  "default": "app/src/generated",              # "default": what the flags' built-in defaults spell, relative to the cwd app/
+                  "dotted-fresh": "app/web/" + rnd.choice(["bindings.v2", "api.gen", "out.d", "gen.ts", "types.ts.d"])}[layout]   # a directory name that looks like a file name
         outnorm = os.path.normpath(outrel)
         src = os.path.join(root, srcrel)
         common.write_tree(src, compound.render(files))
@@ -63,7 +64,10 @@ def run_case(a):
         common.write_tree(root, [("app/package.json", "{}"), ("app/README.md", "readme"), ("sibling/types.ts", "// not ours"), ("app/src-tauri/Cargo.toml", "[package]\nname='x'\n"),
                                  ("app/src-tauri/build.rs", "fn main(){}"), ("types.ts", "// root level foreign")])
         planted = []
-        if rnd.random() < 0.85:
+        if layout == "dotted-fresh":
+            # the output directory does not exist yet; its PARENT holds hand-written files with the generator's file names
+            common.write_tree(os.path.join(root, "app/web"), [("types.ts", "// hand-written, not ours"), ("index.ts", "// hand-written"), ("commands.ts", "// hand-written"), ("notes.md", "x")])
+        elif rnd.random() < 0.85:
             for f in rnd.sample(FOREIGN, rnd.randint(3, 14)):
                 p = os.path.join(root, outnorm, f)
                 if os.path.exists(p):
